@@ -236,6 +236,9 @@ def gen_desc(rng, opts=None):
             arbid = rng.randrange(0, 1 << 29) if ext else rng.randrange(0, 1 << 11)
             if rng.random() < 0.2:
                 arbid = rng.randrange(0, 0x7FF)
+            if frames and rng.random() < 0.2 and frames[0]["id"] < 0x800 and (frames[0]["id"], not frames[0]["ext"]) not in ids:
+                # the same identifier number as standard and as extended frame
+                arbid, ext = frames[0]["id"], not frames[0]["ext"]
             if (arbid, ext) not in ids:
                 break
         ids.add((arbid, ext))
